@@ -157,8 +157,15 @@ class Hygiene(object):
         import numpy
 
         self._rl = sys.getrecursionlimit()
-        if self.recursion_limit:
-            sys.setrecursionlimit(self.recursion_limit)
+        # The stack available to the code under test is a simulated resource: the same number of frames below this point
+        # whether the run happens in a pool worker, in a forked child or in a fresh interpreter (the depth at which the
+        # interpreter gives up must not depend on how deep the harness itself happens to be).
+        depth = 0
+        f = sys._getframe()
+        while f is not None:
+            depth += 1
+            f = f.f_back
+        sys.setrecursionlimit(depth + (self.recursion_limit or 1000))
         self._np = numpy.seterr(all="ignore")
         self._wf = warnings.filters[:]
         warnings.simplefilter("ignore")
@@ -207,3 +214,31 @@ def innermost_frame(exc, prefer=("mpilot",)):
                 best = (p + "/" + rel, qual)
         tb = tb.tb_next
     return best or last or ("?", "?")
+
+
+def run_in_thread(fn, stack_frames=1000):
+    """Run fn() in a thread of its own (joined at once: still one thing happens at a time), with the same simulated stack
+    below it as a call from the main thread would have; its result or exception comes back to the caller."""
+    import threading
+    box = {}
+    saved = sys.getrecursionlimit()
+
+    def body():
+        depth = 0
+        f = sys._getframe()
+        while f is not None:
+            depth += 1
+            f = f.f_back
+        sys.setrecursionlimit(depth + stack_frames)
+        try:
+            box["value"] = fn()
+        except BaseException as exc:  # noqa - carried over to the caller
+            box["exc"] = exc
+
+    t = threading.Thread(target=body, name="mpsim-client")
+    t.start()
+    t.join()
+    sys.setrecursionlimit(saved)
+    if "exc" in box:
+        raise box["exc"]
+    return box.get("value")
